@@ -45,10 +45,18 @@ pub fn gen_cases(prop: &str, tier: &str, seed: u64, rep: &mut Report) -> Vec<Emi
     add_file("/repo/test_specs/basic.yaml", Cfg::new("Basic"), &mut cases);
     add_file("/repo/test_specs/deepl.yaml", Cfg::new("Deepl"), &mut cases);
     if thorough { add_file("/repo/test_specs/recurly.yaml", Cfg::new("Recurly"), &mut cases); }
-    if let Ok(rd) = std::fs::read_dir(format!("/verif/corpus/{prop}")) {
-        let mut files: Vec<_> = rd.flatten().map(|e| e.path()).collect();
-        files.sort();
-        for f in files { add_file(&f.to_string_lossy(), Cfg::new("Corpus"), &mut cases); }
+    // hand-picked shapes and minimised past failures; totality (C01) and determinism (C09) are asked of all of them
+    let dirs: Vec<String> = if prop == "C01" || prop == "C09" {
+        let mut d: Vec<String> = std::fs::read_dir("/verif/corpus").map(|rd| rd.flatten().map(|e| e.path().to_string_lossy().to_string()).collect()).unwrap_or_default();
+        d.sort();
+        d
+    } else { vec![format!("/verif/corpus/{prop}")] };
+    for dir in dirs {
+        if let Ok(rd) = std::fs::read_dir(&dir) {
+            let mut files: Vec<_> = rd.flatten().map(|e| e.path()).collect();
+            files.sort();
+            for f in files { add_file(&f.to_string_lossy(), Cfg::new("Corpus"), &mut cases); }
+        }
     }
     rep.add("corpus", cases.len() as u64);
     let n = if thorough { 4000 } else { 250 };
@@ -61,6 +69,8 @@ pub fn gen_cases(prop: &str, tier: &str, seed: u64, rep: &mut Report) -> Vec<Emi
         cfg.examples = rng.chance(2, 3);
         let mut opts = GenOpts::clean();
         if thorough && rng.chance(1, 4) { opts.max_schemas = 12; opts.max_paths = 6; }
+        // totality is asked of the whole domain, including its awkward corners
+        if prop == "C01" && i % 3 == 0 { opts.risky = true; }
         let mut g = SpecGen::new(&mut rng, opts);
         let doc = g.spec();
         let mut features = g.features.clone();
